@@ -1,6 +1,7 @@
 (* C13 — executable models of utils/core/src/serde/byte_reader.rs:
      * the provided (default) methods of trait ByteReader, written once over a record of the six required methods;
      * SliceReader;
+     * the ByteReader impl for std::io::Cursor (coverage round: the third reader implementation);
      * ReadAdapter (std BufReader of capacity 256 over a chunked source + buf/pos/guaranteed_eof), as repaired by
        /verif/fixes/c13-read-adapter-cursor.diff.
    No proofs here.  Bytes are Z (the harness supplies values in [0,256)); lengths and positions are nat.
@@ -192,6 +193,54 @@ Definition slice_reader : reader sstate :=
     (fun s => (s_pos s <? length (s_src s), s)).
 
 Definition s_init (bytes : list byte) : sstate := mkS bytes 0.
+
+(* ------------------------------------------------------------------------------------------------ *)
+(* impl<T: AsRef<[u8]>> ByteReader for std::io::Cursor<T>: { inner buffer, position: u64 }           *)
+(* The position is an arbitrary u64 (Cursor::set_position does not clamp it), so it may lie beyond    *)
+(* the end of the buffer.                                                                             *)
+
+Record cstate := mkC { c_src : list byte; c_pos : nat }.
+
+(* cursor_remaining_buf!: let start = position().min(buf.len() as u64) as usize; &buf[start..] *)
+Definition c_rem (s : cstate) : list byte := skipn (Nat.min (c_pos s) (length (c_src s))) (c_src s).
+
+(* self.set_position(self.position() + k): u64 addition (debug: overflow panics) *)
+Definition c_advance (k : nat) (s : cstate) : option cstate :=
+  if (2 ^ 64 <=? Z.of_nat (c_pos s) + Z.of_nat k)%Z then None else Some (mkC (c_src s) (c_pos s + k)).
+
+Definition c_u8 (s : cstate) : outcome byte * cstate :=
+  match c_rem s with
+  | [] => (Err EOF, s)
+  | b :: _ => match c_advance 1 s with Some s' => (Ok b, s') | None => (Panic, s) end
+  end.
+
+Definition c_peek (s : cstate) : outcome byte * cstate :=
+  match c_rem s with [] => (Err EOF, s) | b :: _ => (Ok b, s) end.
+
+(* read_slice: if size.saturating_sub(pos) < len { Err } else { set_position(pos + len); let start = pos.min(size);
+   Ok(&buf[start..start + len]) }  (nat subtraction is the saturating one) *)
+Definition c_slice (n : nat) (s : cstate) : outcome (list byte) * cstate :=
+  let size := length (c_src s) in
+  if size - c_pos s <? n then (Err EOF, s)
+  else match c_advance n s with
+       | None => (Panic, s)
+       | Some s' =>
+           let start := Nat.min (c_pos s) size in
+           if start + n <=? size then (Ok (firstn n (skipn start (c_src s))), s') else (Panic, s')
+       end.
+
+(* read_array::<N>: read_slice(N).map(|bytes| { result.copy_from_slice(bytes); result }) — the slice has length N *)
+Definition c_array (n : nat) (s : cstate) : outcome (list byte) * cstate := c_slice n s.
+
+Definition c_eor (n : nat) (s : cstate) : outcome unit * cstate :=
+  (if n <=? length (c_rem s) then Ok tt else Err EOF, s).
+
+Definition c_more (s : cstate) : bool * cstate := (c_pos s <? length (c_src s), s).
+
+Definition cursor_reader : reader cstate := mkReader cstate c_u8 c_peek c_slice c_array c_eor c_more.
+
+(* Cursor::new(bytes) followed by set_position(pos) *)
+Definition c_init (bytes : list byte) (pos : nat) : cstate := mkC bytes pos.
 
 (* ------------------------------------------------------------------------------------------------ *)
 (* ReadAdapter                                                                                       *)
@@ -429,3 +478,5 @@ Definition adapter_step (dbg : bool) (o : op) (s : astate) : outcome value * ast
   step (adapter vec_grow dbg) utf8_valid o s.
 Definition slice_step (o : op) (s : sstate) : outcome value * sstate :=
   step slice_reader utf8_valid o s.
+Definition cursor_step (o : op) (s : cstate) : outcome value * cstate :=
+  step cursor_reader utf8_valid o s.
